@@ -82,6 +82,20 @@ func renderObsProcs(sc *Scenario, meta *c20Meta) {
 					q = fmt.Sprintf("SELECT COUNT(*) FROM %s; SHOW TABLES;", t)
 				case 11:
 					q = fmt.Sprintf("SET @@CPU TO 2; SELECT COUNT(*) FROM %s; ADD '%%Y' TO @@DATETIME_FORMAT;", t)
+				case 12:
+					// the table is only the source of a statement that changes another table
+					// (a temporary one, or a file nobody else uses): still a plain read
+					q = fmt.Sprintf("DECLARE sink%d VIEW (id, n); INSERT INTO sink%d SELECT id, n FROM %s;", i, i, t)
+				case 13:
+					q = fmt.Sprintf("INSERT INTO priv%d SELECT id + %d, n FROM %s;", p, 1000*(i+1), t)
+				case 14:
+					q = fmt.Sprintf("REPLACE INTO priv%d (id, n) USING (id) SELECT id, n FROM %s;", p, t)
+				case 15:
+					q = fmt.Sprintf("UPDATE priv%d SET n = (SELECT MAX(n) FROM %s);", p, t)
+				case 16:
+					q = fmt.Sprintf("DELETE FROM priv%d WHERE id IN (SELECT id + 5000 FROM %s);", p, t)
+				case 17:
+					q = fmt.Sprintf("CREATE TABLE `made%d_%d.csv` (id, n) AS SELECT id, n FROM %s;", p, i, t)
 				default:
 					q = fmt.Sprintf("SELECT COUNT(*) FROM `./%s.csv`;", t)
 				}
@@ -144,6 +158,10 @@ func (c20) Gen(seed uint64, tier string) *Scenario {
 	sc.Files = append(sc.Files, FileSpec{Name: "one.csv", Content: "k\n1\n"}) // first table of the join form of FOR UPDATE
 	nobs := r.Pick(1, 1, 2)
 	nwr := r.Range(1, 2)
+	for p := 0; p < nobs; p++ {
+		// a table only observer p uses: target of statements that take their rows from the shared tables
+		sc.Files = append(sc.Files, FileSpec{Name: fmt.Sprintf("priv%d.csv", p), Content: "id,n\n1,0\n2,0\n"})
+	}
 	uniq := 1000
 	for p := 0; p < nobs+nwr; p++ {
 		var ops []ObsOp
@@ -155,8 +173,8 @@ func (c20) Gen(seed uint64, tier string) *Scenario {
 				case 0, 1, 2:
 					ops = append(ops, ObsOp{Kind: "sel", Table: tb, Form: r.Pick(0, 0, 0, 1, 2, 3, 4)})
 				case 3:
-					if r.Bool(0.5) {
-						ops = append(ops, ObsOp{Kind: "touch", Table: tb, Form: r.Intn(12)})
+					if r.Bool(0.7) {
+						ops = append(ops, ObsOp{Kind: "touch", Table: tb, Form: r.Pick(0, 1, 2, 3, 4, 5, 6, 7, 8, 9, 10, 11, 12, 13, 14, 15, 16, 17, 13, 14)})
 					} else {
 						ops = append(ops, ObsOp{Kind: "noop", Table: tb, Form: r.Intn(2)})
 					}
